@@ -32,7 +32,8 @@ BOUNDS = {
              "Mask2D.resized_from / masked Array2D.resized_from: every mask (forked) of shapes with <= 6 pixels (sides <= 5) x targets 1..5 x 1..5; "
              "pad/trim: input shapes 1..5 x 1..5 (unmasked) and every mask of shapes with <= 6 pixels, odd kernels (1,1),(1,3),(3,1),(3,3),(1,5),(5,1),(3,5),(5,3),(5,5); "
              "Mask2D.trimmed_array_from: padded frames 1..5 x 1..5, every image_shape <= frame; "
-             "Imaging.apply_mask: every mask (>= 1 unmasked pixel) of shapes with <= 8 pixels plus 3x3, odd PSF shapes (1,1),(1,3),(3,1),(3,3),(3,5),(5,3); "
+             "Imaging.apply_mask: every mask (>= 1 unmasked pixel) of shapes with <= 8 pixels plus 3x3, odd PSF shapes (1,1),(1,3),(3,1),(3,3),(3,5),(5,3), and for PSF (1,1),(3,3) "
+             "also on a dataset that was already masked by a first apply_mask (first mask hides only the first unmasked pixel of the mask / everything but its last one); "
              "zoom: every mask (>= 1 unmasked pixel) of shapes with <= 9 pixels (sides <= 6) plus 2x5, 5x2, buffers 0,1,2; "
              "zoom histories (zoom + read every zoom quantity, flip ONE pixel of the same Mask2D object in place, zoom again): every mask of shapes with <= 6 pixels "
              "x every pixel, buffers 0,1",
@@ -40,7 +41,7 @@ BOUNDS = {
                 "Array2D.resized_from on unmasked input incl. grow-then-shrink; extraction windows with margin 3 on shapes <= 6x6; Mask2D.trimmed_array_from on frames 1..7 x 1..7, "
                 "every image_shape <= frame; pad/trim on unmasked inputs 1..7 x 1..7 with every odd kernel shape with axes in {1,3,5,7} (16 shapes); "
                 "Mask2D.resized_from / masked Array2D.resized_from and pad/trim (odd kernels up to (5,5)): every mask (forked) of shapes with <= 8 pixels (sides <= 7) plus 3x3, 2x5, 5x2 "
-                "x targets 1..6 x 1..6; Imaging.apply_mask: every mask (>= 1 unmasked pixel) of shapes with <= 9 pixels (sides <= 5) plus 2x5, 5x2, 3x4, 4x3, the 9 odd PSF shapes up to (5,5); "
+                "x targets 1..6 x 1..6; Imaging.apply_mask: every mask (>= 1 unmasked pixel) of shapes with <= 9 pixels (sides <= 5) plus 2x5, 5x2, 3x4, 4x3, the 9 odd PSF shapes up to (5,5), incl. the two apply_mask-twice histories for PSF (1,1),(3,3); "
                 "zoom: every mask of shapes with <= 9 pixels (sides <= 6) plus 2x5, 5x2, 3x4, 4x3, 2x6, 6x2 with buffers 0..3, and every mask of 3x5, 5x3 (32767 each) with buffers 0..2; "
                 "zoom histories: one in-place single-pixel edit between two zooms on every mask of shapes with <= 9 pixels (sides <= 7) plus 2x5, 5x2 x every pixel, and three-step "
                 "histories (zoom, edit, zoom, edit, zoom: every ordered pair of pixels) on every mask of shapes with <= 6 pixels; buffers 0,1",
@@ -486,8 +487,26 @@ def body_imaging(inp, H, W, kernels):
     A, E = {}, {}
     data = aa.Array2D.no_mask(values=v, pixel_scales=(sy, sx), origin=(oy, ox))
     noise = aa.Array2D.no_mask(values=n, pixel_scales=(sy, sx), origin=(oy, ox))
+    # histories: the mask is applied to a dataset that already went through apply_mask with another (first) mask; the second
+    # call must start from the original unmasked data.  First masks are derived from the mask under test: one hides only its
+    # first unmasked pixel, one hides everything except its last unmasked pixel.
+    pos = [(y, x) for y in range(H) for x in range(W) if not mask[y, x]]
+    firsts = []
+    if pos:
+        f1 = np.full((H, W), False)
+        f1[pos[0]] = True
+        f2 = np.full((H, W), True)
+        f2[pos[-1]] = False
+        firsts = [(nm, f) for nm, f in (("hide %d,%d" % pos[0], f1), ("keep only %d,%d" % pos[-1], f2)) if not f.all()]
+    runs = []
     for (ky, kx) in kernels:
+        runs.append((ky, kx, None, None))
+        if (ky, kx) in ((1, 1), (3, 3)):
+            runs.extend((ky, kx, nm, f) for nm, f in firsts)
+    for (ky, kx, first_name, first) in runs:
         tag = "%dx%d,psf=%dx%d:" % (H, W, ky, kx)
+        if first is not None:
+            tag += "after apply_mask(%s):" % first_name
         kv = np.full((ky, kx), 0.25)
         kv[ky // 2, kx // 2] = 1.0
         psf = aa.Kernel2D.no_mask(values=kv, pixel_scales=(sy, sx))
@@ -495,6 +514,8 @@ def body_imaging(inp, H, W, kernels):
 
         def run():
             ds = aa.Imaging(data=data, noise_map=noise, psf=psf)
+            if first is not None:
+                ds = ds.apply_mask(mask=aa.Mask2D(mask=first, pixel_scales=(sy, sx), origin=(oy, ox)))
             return ds.apply_mask(mask=m)
 
         md = hx.attempt(run)
@@ -524,7 +545,7 @@ def body_imaging(inp, H, W, kernels):
 
         A[tag + "(coordinate,data,noise)"] = hx.attempt(triples)
         E[tag + "(coordinate,data,noise)"] = ref_pairs(mask, (oy, ox, sy, sx, H, W, 0, 0), [vin, nin])
-        if (Ho, Wo) == (H + ky - 1, W + kx - 1) and (ky, kx) != (1, 1):
+        if first is None and (Ho, Wo) == (H + ky - 1, W + kx - 1) and (ky, kx) != (1, 1):
             back = hx.attempt(lambda: md.trimmed_after_convolution_from(kernel_shape=(ky, kx)))
             if isinstance(back, hx.Raised):
                 A[tag + "dataset.pad_trim"] = back
